@@ -41,29 +41,48 @@ def run(ctx: Ctx) -> None:
 
 def protocol(ctx: Ctx, rule="R-C17-PROTOCOL") -> None:
     f = ctx.func(f"{WRAPPER}.__call__")
-    g = ctx.cfg(f)
+    g = ctx.icfg(f, exclude=("call_set_context", "fn"), substitute=True)  # an extracted `_emit(stage, kwargs)` helper is part of the protocol
     aw = await_map(g)
 
+    def emit_tag(n) -> str:
+        """'before_' / 'after_' for f"before_{self.name}" (constant pieces folded, e.g. after substituting a helper's `stage` parameter)."""
+        a0 = n.ast.args[0] if n.ast.args else None
+        a0 = C.inline_locals(n.func, a0) if a0 is not None else None
+        if isinstance(a0, ast.BinOp) and isinstance(a0.op, ast.Add):  # "before_" + self.name
+            a0 = ast.JoinedStr(values=[x if isinstance(x, ast.Constant) else ast.FormattedValue(value=x, conversion=-1) for x in (a0.left, a0.right)])
+        if not isinstance(a0, ast.JoinedStr):
+            return "?"
+        parts: list = []
+        for v in a0.values:
+            piece = v.value if isinstance(v, ast.Constant) else (v.value.value if isinstance(v, ast.FormattedValue) and isinstance(v.value, ast.Constant) and isinstance(v.value.value, str) else None)
+            if piece is not None:
+                if parts and isinstance(parts[-1], str):
+                    parts[-1] += piece
+                else:
+                    parts.append(piece)
+            else:
+                parts.append(v)
+        if not parts or not isinstance(parts[0], str):
+            return "?"
+        tag = parts[0]
+        rest = parts[1:]
+        if not (len(rest) == 1 and isinstance(rest[0], ast.FormattedValue) and dotted(rest[0].value) == "self.name"):
+            tag += "<not self.name>"
+        return tag
+
     def sym(n):
+        if n.meta.get("inlined"):
+            return None
         if n.kind == "call":
             d = n.callee or ""
             if d.endswith("_repid_signal_emitter"):
-                a0 = n.ast.args[0] if n.ast.args else None
-                tag = "?"
-                if isinstance(a0, ast.JoinedStr) and a0.values and isinstance(a0.values[0], ast.Constant):
-                    tag = a0.values[0].value
-                    rest = a0.values[1:]
-                    if not (len(rest) == 1 and isinstance(rest[0], ast.FormattedValue) and dotted(rest[0].value) == "self.name"):
-                        tag += "<not self.name>"
-                return ("emit", tag, "awaited" if n.id in aw else "NOT-awaited")
+                return ("emit", emit_tag(n), "awaited" if n.id in aw else "NOT-awaited")
             if d == "self.fn":
                 return ("call", unparse(n.ast)[len("self.fn"):])
             if d == "self.call_set_context":
                 return ("call", unparse(n.ast)[len("self.call_set_context"):])
-        if n.kind == "return":
+        if n.kind == "return" and n.func is f:
             return ("return", unparse(n.ast.value) if n.ast.value is not None else "")
-        if n.kind == "store" and n.target == "result":
-            return None
         return None
 
     def env(nested: bool, no_emitter: bool):
@@ -117,7 +136,7 @@ def protocol(ctx: Ctx, rule="R-C17-PROTOCOL") -> None:
     ctx.check(ok or bool(sub), rule, f, "after signal carries result", "signal_kwargs['result'] = awaited value", "the after signal does not carry the operation's result",
               instance="protocol: after carries result")
     # ... on every path, whatever the result is (None is a result too)
-    after_emits = [n for n in g.calls() if (n.callee or "").endswith("_repid_signal_emitter") and n.ast.args and "after_" in unparse(n.ast.args[0])]
+    after_emits = [n for n in g.calls() if (n.callee or "").endswith("_repid_signal_emitter") and n.ast.args and emit_tag(n).startswith("after_")]
     res_stores = [n.id for n in g.nodes if (n.kind == "call" and (n.callee or "").endswith("signal_kwargs.update") and "result" in unparse(n.ast)) or
                   (n.kind == "store" and isinstance(n.ast, ast.Subscript) and dotted(n.ast.value) == "signal_kwargs" and C.is_const(n.ast.slice, "result"))]
     calls_ = [n for n in g.nodes if n.kind == "call" and (n.callee or "") == "self.call_set_context"]
@@ -126,7 +145,12 @@ def protocol(ctx: Ctx, rule="R-C17-PROTOCOL") -> None:
               "the 'result' entry of the after signal is set only conditionally: for some results (e.g. None) after-subscribers that declare `result` are called without it (or not at all)",
               instance="protocol: result unconditional")
     sk = [n for n in ast.walk(f.node) if isinstance(n, ast.Assign) and any(dotted(t) == "signal_kwargs" for t in n.targets)]
-    ok = len(sk) == 1 and isinstance(sk[0].value, ast.Call) and dotted(sk[0].value.func) in ("kwargs.copy", "dict") 
+    sk += [n for n in ast.walk(f.node) if isinstance(n, ast.AnnAssign) and dotted(n.target) == "signal_kwargs" and n.value is not None]
+    skv = sk[0].value if len(sk) == 1 else None
+    # a new mapping built from kwargs: kwargs.copy() / dict(kwargs, ...) / {**kwargs, ...} / kwargs | {...}
+    ok = (isinstance(skv, ast.Call) and dotted(skv.func) in ("kwargs.copy", "dict")) or \
+         (isinstance(skv, ast.Dict) and any(k is None and dotted(v) == "kwargs" for k, v in zip(skv.keys, skv.values))) or \
+         (isinstance(skv, ast.BinOp) and isinstance(skv.op, ast.BitOr) and "kwargs" in (dotted(skv.left), dotted(skv.right)))
     ctx.check(ok, rule, f, "signals get a copy of kwargs", "the call's own kwargs are not mutated", f"signal_kwargs = {unparse(sk[0].value) if sk else '?'}: the operation's kwargs "
               "object is shared with (and mutated for) the signals", instance="protocol: kwargs copied")
     zp = [n for n in ast.walk(f.node) if isinstance(n, ast.Call) and dotted(n.func) == "zip" and len(n.args) == 2 and dotted(n.args[0]) == "self.parameters" and dotted(n.args[1]) == "args"]
@@ -226,9 +250,18 @@ def table(ctx: Ctx, rule="R-C17-TABLE") -> None:
 
 def isolate(ctx: Ctx, rule="R-C17-ISOLATE") -> None:
     f = ctx.func(f"{MIDDLEWARE}.add_subscriber")
-    w = f.nested.get("wrapper")
-    ctx.require(w is not None, f"{f.qualname}: nested wrapper not found")
-    calls = [n for n in ast.walk(w.node) if isinstance(n, ast.Call) and dotted(n.func) == "asyncified"]
+    # the isolating wrapper: the nested coroutine function (of add_subscriber or of a private helper it calls) that calls the asyncified subscriber
+    owners = [f] + C.helper_callees(ctx, f)
+    cands = []
+    for o in owners:
+        asy = {t.id for a in ast.walk(o.node) if isinstance(a, ast.Assign) and isinstance(a.value, ast.Call) and (dotted(a.value.func) or "").split(".")[-1] == "asyncify"
+               for t in a.targets if isinstance(t, ast.Name)}
+        for nf in o.nested.values():
+            cs = [n for n in ast.walk(nf.node) if isinstance(n, ast.Call) and isinstance(n.func, ast.Name) and n.func.id in asy]
+            if cs and nf.is_async:
+                cands.append((o, nf, cs))
+    ctx.require(len(cands) == 1, f"{f.qualname}: nested wrapper not found")
+    owner, w, calls = cands[0]
     ctx.require(len(calls) == 1, f"{w.qualname}: subscriber call not found")
     tries = [t for t in ast.walk(w.node) if isinstance(t, ast.Try) and any(x is calls[0] for st in t.body for x in ast.walk(st))]
     if not ctx.check(len(tries) == 1, rule, w, "subscriber call inside try", "isolated", "the subscriber is called outside any try: its exception fails the operation", node=calls[0],
@@ -255,12 +288,35 @@ def isolate(ctx: Ctx, rule="R-C17-ISOLATE") -> None:
                 ctx.check(False, rule, w, f"call in the subscriber handler: {unparse(c)[:60]}", "", f"the subscriber exception handler calls {unparse(c)[:60]}, which can raise",
                           node=c, instance="subscriber handler extra call")
     # kwargs filtered by the subscriber's signature; registered under its name
-    ap = [n for n in ast.walk(f.node) if isinstance(n, ast.Call) and isinstance(n.func, ast.Attribute) and n.func.attr == "append" and n.args and dotted(n.args[0]) == "wrapper"]
+    def is_wrapper(e_):
+        """e_ (in add_subscriber) denotes the isolating wrapper: the nested function itself or what the helper that defines it returns."""
+        if isinstance(e_, ast.Name) and owner is f and e_.id == w.name:
+            return True
+        for x in C.expand_locals(f, e_):
+            if isinstance(x, ast.Call) and any(cal.qualname == owner.qualname for cal in ctx.res.callees(f, x, record=False)):
+                rets = C.own_returns(owner)
+                return bool(rets) and all(isinstance(r.value, ast.Name) and r.value.id == w.name for r in rets)
+        return False
+
+    ap = [n for n in ast.walk(f.node) if isinstance(n, ast.Call) and isinstance(n.func, ast.Attribute) and n.func.attr == "append" and n.args and is_wrapper(n.args[0])]
     ctx.check(len(ap) == 1 and unparse(ap[0].func) in ("self.subscribers[name].append", "self.subscribers.setdefault(name, []).append"), rule, f, "wrapper registered under the subscriber's name", "self.subscribers[name].append(wrapper)",
               "add_subscriber does not register the isolating wrapper", instance="wrapper registered")
     e = ctx.func(f"{MIDDLEWARE}.emit_signal")
     gat = [n for n in ast.walk(e.node) if isinstance(n, ast.Call) and (dotted(n.func) or "").endswith("gather")]
-    ok = len(gat) == 1 and "self.subscribers[name]" in unparse(gat[0]) and "**kwargs" in unparse(gat[0]) and not C.kw(gat[0], "return_exceptions")
+    ok = len(gat) == 1 and len(gat[0].args) == 1 and isinstance(gat[0].args[0], ast.Starred) and not C.kw(gat[0], "return_exceptions")
+    if ok:
+        src = gat[0].args[0].value
+        built = None
+        if isinstance(src, (ast.ListComp, ast.GeneratorExp)) and len(src.generators) == 1:
+            built = (src.generators[0].target, src.generators[0].iter, src.elt, list(src.generators[0].ifs))
+        elif isinstance(src, ast.Name):
+            cb = C.collection_build(e, src.id)
+            built = cb[1:] if cb else None
+        ok = built is not None
+        if ok:
+            tgt, it, elt, guards = built
+            ok = isinstance(tgt, ast.Name) and C.utext(e, it) == "self.subscribers[name]" and not guards and isinstance(elt, ast.Call) and dotted(elt.func) == tgt.id \
+                and not elt.args and len(elt.keywords) == 1 and elt.keywords[0].arg is None and dotted(elt.keywords[0].value) == "kwargs"
     ctx.check(ok, rule, e, "emit_signal awaits the registered wrappers of that signal", "gather(*[fn(**kwargs) for fn in self.subscribers[name]])",
               f"emit_signal calls {unparse(gat[0])[:100] if gat else 'nothing'}", instance="emit_signal calls wrappers")
     aws = [n for n in ast.walk(e.node) if isinstance(n, ast.Await) and gat and n.value is gat[0]]
@@ -320,7 +376,8 @@ def emitter_own(ctx: Ctx, rule="R-C17-EMITTER-OWN") -> None:
     st = [n for n in ast.walk(cp.node) if isinstance(n, ast.Assign) and any(isinstance(t, ast.Attribute) and t.attr == "_signal_emitter" for t in n.targets)]
     ok = len(st) == 1 and dotted(st[0].value) == "self.middleware.emit_signal"
     loops = [n for n in ast.walk(cp.node) if isinstance(n, ast.For) and st and any(x is st[0] for x in ast.walk(n))]
-    ok = ok and len(loops) == 1 and all(nm in unparse(loops[0].iter) for nm in ("message_broker", "args_bucket_broker", "results_bucket_broker"))
+    srcs = " ".join(unparse(x) for _, x in C.deep_defs(ctx, cp, loops[0].iter)) if len(loops) == 1 else ""  # the collection may come from a helper
+    ok = ok and len(loops) == 1 and all(nm in srcs for nm in ("message_broker", "args_bucket_broker", "results_bucket_broker"))
     ctx.check(ok, rule, cp, "Connection gives its middleware's emitter to all three brokers", "every broker emits to its own connection", "Connection.__post_init__ does not set the emitter "
               "of its own middleware on all three brokers", instance="connection emitter wiring")
     conn = ctx.prog.cls("repid.connection.Connection")
